@@ -18,9 +18,12 @@ package field
 //@ define tight(e) = e.l0 < 2^51 + 2^18 && e.l1 < 2^51 + 2^13 && e.l2 < 2^51 + 2^13 && e.l3 < 2^51 + 2^13 && e.l4 < 2^51 + 2^13
 //@ define canon(e) = e.l0 <= M51 && e.l1 <= M51 && e.l2 <= M51 && e.l3 <= M51 && e.l4 <= M51 && lv(e) < P
 //@ define v128(x) = x.lo + x.hi*2^64
+//@ define eqlimbs(x, y) = x.l0 == y.l0 && x.l1 == y.l1 && x.l2 == y.l2 && x.l3 == y.l3 && x.l4 == y.l4
+//@ define iszero(e) = e.l0 == 0 && e.l1 == 0 && e.l2 == 0 && e.l3 == 0 && e.l4 == 0
+//@ define isone(e) = e.l0 == 1 && e.l1 == 0 && e.l2 == 0 && e.l3 == 0 && e.l4 == 0
 
-//@ globalinv [feZero] feZero.l0 == 0 && feZero.l1 == 0 && feZero.l2 == 0 && feZero.l3 == 0 && feZero.l4 == 0
-//@ globalinv [feOne] feOne.l0 == 1 && feOne.l1 == 0 && feOne.l2 == 0 && feOne.l3 == 0 && feOne.l4 == 0
+//@ globalinv [feZero] iszero(feZero)
+//@ globalinv [feOne] isone(feOne)
 
 //@ func mul64(a, b)
 //@   mode lia
@@ -148,19 +151,19 @@ package field
 //@   mode lia
 //@   assigns *v
 //@   ensures [receiver] result == v
-//@   ensures [value] v.l0 == 0 && v.l1 == 0 && v.l2 == 0 && v.l3 == 0 && v.l4 == 0
+//@   ensures [value] iszero(v)
 
 //@ func (*Element).One(v)
 //@   mode lia
 //@   assigns *v
 //@   ensures [receiver] result == v
-//@   ensures [value] v.l0 == 1 && v.l1 == 0 && v.l2 == 0 && v.l3 == 0 && v.l4 == 0
+//@   ensures [value] isone(v)
 
 //@ func (*Element).Set(v, a)
 //@   mode lia
 //@   assigns *v
 //@   ensures [receiver] result == v
-//@   ensures [value] v.l0 == a.l0 && v.l1 == a.l1 && v.l2 == a.l2 && v.l3 == a.l3 && v.l4 == a.l4
+//@   ensures [value] eqlimbs(v, a)
 
 //@ func (*Element).reduce(v)
 //@   mode lia
@@ -169,8 +172,6 @@ package field
 //@   ensures [receiver] result == v
 //@   ensures [canon] canon(v)
 //@   ensures [value] lv(v) == lv(old(v)) % P
-
-//@ define eqlimbs(x, y) = x.l0 == y.l0 && x.l1 == y.l1 && x.l2 == y.l2 && x.l3 == y.l3 && x.l4 == y.l4
 
 //@ func mask64Bits(cond)
 //@   mode bv
@@ -181,6 +182,7 @@ package field
 //@ func (*Element).Select(v, a, b, cond)
 //@   mode bv
 //@   requires [cond] cond == 0 || cond == 1
+//@   casesplit cond in 0..2
 //@   assigns *v
 //@   ensures [receiver] result == v
 //@   ensures [one] cond == 1 ==> eqlimbs(v, a)
@@ -189,12 +191,14 @@ package field
 //@ func (*Element).Swap(v, u, cond)
 //@   mode bv
 //@   requires [cond] cond == 0 || cond == 1
+//@   casesplit cond in 0..2
 //@   assigns *v, *u
 //@   ensures [one] cond == 1 ==> eqlimbs(v, old(u)) && eqlimbs(u, old(v))
 //@   ensures [zero] cond == 0 ==> eqlimbs(v, old(v)) && eqlimbs(u, old(u))
 
 //@ func (*Element).SetBytes(v, x)
 //@   mode bv
+//@   casesplit len(x) == 32
 //@   assigns *v
 //@   ensures [badlen] len(x) != 32 ==> isnil(result0) && !isnil(result1) && unchanged(*v)
 //@   ensures [ok] len(x) == 32 ==> result0 == v && isnil(result1)
@@ -219,28 +223,61 @@ package field
 //@ func (*Element).Equal(v, u)
 //@   mode bv
 //@   requires [inv] inv(v) && inv(u)
-//@   ensures [bit] result == 0 || result == 1
+//@   ensures [bit] 0 <= result && result <= 1
 //@   ensures [iff] result == 1 <==> lv(v) % P == lv(u) % P
 
 //@ func (*Element).IsNegative(v)
 //@   mode bv
 //@   requires [inv] inv(v)
+//@   ensures [bit] 0 <= result && result <= 1
 //@   ensures [value] result == (lv(v) % P) % 2
 
 //@ func (*Element).Absolute(v, u)
 //@   mode lia
 //@   requires [inv] inv(u)
+//@   casesplit (lv(u) % P) % 2 in 0..2
 //@   assigns *v
 //@   ensures [receiver] result == v
 //@   ensures [inv] inv(v)
-//@   ensures [even] (lv(v) % P) % 2 == 0
 //@   ensures [pos] (lv(u) % P) % 2 == 0 ==> eqlimbs(v, u)
 //@   ensures [neg] (lv(u) % P) % 2 == 1 ==> cong(lv(v), 0 - lv(u), P)
+//@   ensures [even] (lv(v) % P) % 2 == 0
 
 //@ func (*Element).SetWideBytes(v, x)
 //@   mode lia
+//@   casesplit len(x) == 64
 //@   assigns *v
 //@   ensures [badlen] len(x) != 64 ==> isnil(result0) && !isnil(result1) && unchanged(*v)
 //@   ensures [ok] len(x) == 64 ==> result0 == v && isnil(result1)
 //@   ensures [value] len(x) == 64 ==> cong(lv(v), le(x, 64), P)
 //@   ensures [tight] len(x) == 64 ==> tight(v)
+
+//@ globalinv [sqrtM1] inv(sqrtM1) && cong(lv(sqrtM1) * lv(sqrtM1), 0 - 1, P)
+
+//@ func (*Element).Invert(v, z)
+//@   mode ring
+//@   requires [inv] inv(z)
+//@   assigns *v
+//@   ensures [receiver] result == v
+//@   ensures [tight] tight(v)
+//@   ensures [value] cong(lv(v), fpow(lv(z), P - 2), P)
+
+//@ func (*Element).Pow22523(v, x)
+//@   mode ring
+//@   requires [inv] inv(x)
+//@   assigns *v
+//@   ensures [receiver] result == v
+//@   ensures [tight] tight(v)
+//@   ensures [value] cong(lv(v), fpow(lv(x), (P - 5) / 8), P)
+
+//@ func (*Element).SqrtRatio(r, u, v)
+//@   mode ring
+//@   requires [inv] inv(u) && inv(v)
+//@   assigns *r
+//@   ensures [receiver] result0 == r
+//@   ensures [tight] inv(r)
+//@   ensures [bit] 0 <= result1 && result1 <= 1
+//@   ensures [even] (lv(r) % P) % 2 == 0
+//@   ensures [square] result1 == 1 ==> cong(lv(v) * lv(r) * lv(r), lv(u), P)
+//@   ensures [nonsquare] result1 == 0 ==> (cong(lv(v), 0, P) && !cong(lv(u), 0, P) && cong(lv(r), 0, P)) || (!cong(lv(v), 0, P) && !cong(lv(u), 0, P) && cong(lv(v) * lv(r) * lv(r), lv(sqrtM1) * lv(u), P))
+//@   ensures [zero] cong(lv(u), 0, P) ==> result1 == 1 && cong(lv(r), 0, P)
